@@ -2,7 +2,7 @@
    PARTIAL: the theorems are about the access-trace model of Conc.v. That the Go code's memory accesses are
    the ones the model lists is what the conc engine checks (state snapshots around every operation,
    sequential vs concurrent results, and the Go race detector on the harness built with -race). *)
-Require Import Base Conc ConcProofs.
+Require Import Base Conc ConcProofs SliceHeap SliceHeapProofs.
 Local Open Scope N_scope.
 
 Theorem C20_readonly_operations_do_not_write : forall o s,
@@ -18,3 +18,29 @@ Theorem C20_results_independent_of_interleaving : forall s steps,
   exec s steps = map (fun st => snd (run_op (snd st) s)) steps.
 Proof. exact results_independent_of_schedule. Qed.
 Print Assumptions C20_results_independent_of_interleaving.
+
+(* ---- why a writeable clone is private memory (Conc.v takes it as given for the two operations that add to a clone):
+   Go slices over a heap of backing arrays (SliceHeap.v). Args.Clone / Meta.Clone allocate an array of exactly the visible
+   length and copy; Add appends, in place when the clone has room, into a fresh array otherwise. For EVERY interleaving of
+   goroutines that clone the token's key slice and append to their own clone, nothing that existed before is written - the
+   token's array included, its spare capacity included - and each goroutine's clone holds the token's keys followed by
+   exactly what that goroutine appended. The snapshots of the conc engine (unused capacity included) observe the same on
+   the code. ---- *)
+Theorem C20_clones_are_private : forall h0 tok, wf_slice h0 tok -> forall steps,
+  let st := run go_clone tok (init h0) steps in
+  (forall a, (a < length h0)%nat -> cells (st_heap st) a = cells h0 a) /\
+  view (st_heap st) tok = view h0 tok /\
+  (forall tid, match ghost steps tid with
+               | Some l => exists c, st_local st tid = Some c /\ view (st_heap st) c = view h0 tok ++ l
+               | None => st_local st tid = None
+               end).
+Proof. exact clones_are_private. Qed.
+Print Assumptions C20_clones_are_private.
+
+(* the variant that several seeded changes introduce (the clone keeps the array when it has room) is refuted by a
+   two-goroutine interleaving: the second goroutine's key appears in the first one's clone *)
+Theorem C20_shared_capacity_clone_refuted :
+  let st := run bad_clone ex_tok (init ex_heap) [(0%nat, AClone); (1%nat, AClone); (0%nat, AAppend [97]); (1%nat, AAppend [98])] in
+  match st_local st 0%nat with Some c => view (st_heap st) c = [[107]; [98]] | None => False end.
+Proof. exact shared_capacity_clone_refuted. Qed.
+Print Assumptions C20_shared_capacity_clone_refuted.
